@@ -301,7 +301,8 @@ class Ctx:
         path = os.path.join(VERIF, "evidence", "replays", f"{self.pid}-{h}.json")
         with open(path, "w") as f:
             json.dump({"property": self.pid, "what": what, "tier": self.tier, "seed": self.seed, "replay": replay}, f, indent=1, default=str)
-        self.violations.append((what, path))
+        if path not in [v[1] for v in self.violations]:
+            self.violations.append((what, path))
         return True
 
     def correspondence_broken(self, name: str, detail):
